@@ -718,7 +718,20 @@ def run(ctx: Ctx):
     if bad:
         ctx.internal_errors.append(bad)
         return
-    n = ctx.budget(260, 4000)
+    # empty domains never reach the encoder through Model.solve (39644fa: INFEASIBLE before encoding); wf_model asks lb <= ub
+    def _empty_dom():
+        from solvor.cp import Model
+        m = Model()
+        m.int_var(3, 2, "x")
+        m.int_var(0, 1, "y")
+        k, _c, r = capture(m)
+        return k, getattr(r.status, "name", str(r.status))
+    r = guarded(_empty_dom, timeout=5)
+    ctx.evaluations += 1
+    if r != ("ok", ("unsat", "INFEASIBLE")):
+        ctx.violation(f"a variable with an empty domain (lb > ub) is not reported INFEASIBLE by solve(solver='sat'): {r}",
+                      {"spec": {"vars": [["x", 3, 2], ["y", 0, 1]], "cons": []}})
+    n = ctx.budget(500, 6000)
     specs = _corpus() + [json.loads(json.dumps(s)) for s in EDGE_SPECS] + [rand_spec(ctx.rng) for _ in range(n)]
 
     coq_cases, metas = [], []
@@ -757,8 +770,13 @@ def run(ctx: Ctx):
                              "fun c => cnf_projection_ok (fst c) (snd c)", coq_cases, shard=40)
     ctx.notes.append("clause lists are compared as multisets (literals sorted inside each clause, clauses sorted, both sides sorted inside Coq): "
                      "_encode_all_different/_encode_eq_var/_encode_ne_var iterate Python sets in hash order")
-    ctx.notes.append("kinds resting on theorems vs per-case checks: see coq/Props/C06.v header; every explored case is additionally "
-                     "checked by cnf_projection_ok (Gallina model counter on the captured clauses, kernel-checked)")
+    ctx.notes.append("kinds resting on theorems (coq/Props/C06.v, all inputs): variables/exactly-one/decoding, ==/!= const, ==/!= var, all_different, "
+                     "no_overlap, linear ==/!= (every shape _linearize accepts), sum_eq/le/ge, circuit, and whole models built from them "
+                     "(C06_sound/_complete/_equisat/_projection under model_proved); kinds with model_proved = false rest on the per-case "
+                     "kernel check cnf_projection_ok (Gallina model counter on the CAPTURED clauses, itself proved sound: C06_check_no_extra / "
+                     "_no_missing); that check runs on every explored case of every kind")
+    ctx.notes.append("variables with an empty domain (lb > ub) never reach the encoder through Model.solve (INFEASIBLE is returned first, 39644fa); "
+                     "the encoder theorems assume lb <= ub (wf_model); checked on one fixed input per run")
     ctx.notes.append("semantics taken from the code: circuit forbids self loops (n=1 unsatisfiable), no_overlap is end_i<=start_j or end_j<=start_i, "
                      "cumulative generated with capacity >= 0 and demands >= 0 only; domains are ranges lb..ub (IntVar), non-empty")
     for i in failing2:
